@@ -111,4 +111,14 @@ example : Inv (([List.replicate 55 1, [], List.replicate 64 2].foldl write init)
     (List.replicate 55 1 ++ [] ++ List.replicate 64 2) :=
   inv_write (inv_write (inv_write inv_init _) _) _
 
+/-- regenerated fact (round 12): `Write` counts the bit length with the multiplication done in `uint64`
+    (`sm3.length += uint64(len(p)) * 8`).  The model's counter is a `Nat`, which is what that expression computes for
+    every `len(p)` on every platform; the form found at the pinned commit, `uint64(len(p) * 8)`, multiplies in `int`
+    and wraps for a single write of 2^28 bytes where `int` has 32 bits (repair 1bd5dbe). -/
+theorem length_counted_in_uint64 : Gen.SM3.lengthUpdate = "wide" := by decide
+
+/-- what the narrow form loses where `int` has 32 bits: 2^28 bytes count as -2^31 bits (converted to uint64: 2^64 - 2^31),
+    2^29 bytes as 0 bits -/
+theorem narrow_length_wraps : Int.bmod (2 ^ 28 * 8) (2 ^ 32) = -(2 ^ 31) ∧ (2 ^ 29 * 8) % 2 ^ 32 = 0 := by decide
+
 end Props.C04
